@@ -52,7 +52,9 @@ var v4Pool = []net.IP{
 	net.IPv4(0, 0, 255, 255).To4(),
 }
 
-func mapped(ip net.IP) net.IP { return append(net.IP{0, 0, 0, 0, 0, 0, 0, 0, 0, 0, 0xff, 0xff}, ip.To4()...) }
+func mapped(ip net.IP) net.IP {
+	return append(net.IP{0, 0, 0, 0, 0, 0, 0, 0, 0, 0, 0xff, 0xff}, ip.To4()...)
+}
 
 func nearMapped(ip net.IP, which int) net.IP {
 	m := mapped(ip)
